@@ -113,6 +113,12 @@ class Model:
             An array of new random variables
         """
 
+        # the two copies of a random variable are paired by position: keep
+        # the support model and the expectation model aligned (an earlier
+        # formulation may have left different numbers of auxiliary columns)
+        first = max(self.sup_model.last, self.exp_model.last)
+        self.sup_model.last = first
+        self.exp_model.last = first
         sup_var = self.sup_model.dvar(shape, 'C', name)
         exp_var = self.exp_model.dvar(shape, 'C', name)
         rand_var = RandVar(sup_var, exp_var)
